@@ -27,7 +27,7 @@ REQUIRED_FEATURES = ["bins:common", "bins:per-cell", "cells:has-empty", "cells:1
                      "create:ordered", "create:ordered-false-flag", "names:natsort-trap", "dtypes:count-float",
                      "columns:extra", "bins:common-with-extra-column", "keys:multi-component-path", "keys:one-slash-path",
                      "history:append-replaces-a-cell", "history:append-new-cells-only",
-                     "option:ensure_sorted+unsorted-cell-tables"]
+                     "option:ensure_sorted+unsorted-cell-tables", "history:column-stored-in-one-cell-later"]
 
 CELL_NAMES = ["c2", "c10", "c1", "cell_A.1", "GSM123-rep.2", "10", "2", "sample 3", "Cell", "cell", "x.y.z", "a-b_c",
               "c02", "c010"]
@@ -113,6 +113,9 @@ def one_file(ctx, cid, rng, idx):
                               count_dtype=np.float64 if float_counts else None)
         if ens and len(df) > 1:
             df = df.iloc[rng.permutation(len(df))].reset_index(drop=True)
+        cidt = [None, None, np.int32, np.int8, np.uint8, np.uint16, np.int16][int(rng.integers(7))]
+        if cidt is not None and n <= np.iinfo(cidt).max:
+            df = df.astype({"bin1_id": cidt, "bin2_id": cidt})       # e.g. scipy.sparse COO .row/.col are int32
         if ens:
             pix_arg[keyof[nm]] = df          # one table per cell: the sort is per chunk
         elif ordered:
@@ -200,6 +203,30 @@ def one_file(ctx, cid, rng, idx):
                     "cell-bins-differ", f"cell {nm}: bin table differs from the common one")
             c.check(clr.info["nnz"] == len(P) and clr.info["sum"] == sum(P.values()), "cell-info-differs",
                     f"cell {nm}: nnz/sum differ")
+        # history: a bin-level column is stored in ONE cell through the ordinary interface afterwards
+        # (balance_cooler(store=True) or an open("r+") handle): the other cells and the root table do not get it
+        if idx % 3 == 1 and ncell >= 2 and not c.failed and not per_cell_bins and common_extra is None:
+            target = names[int(rng.integers(len(names)))]
+            tclr = cooler.Cooler(f"{path}::/cells/{target}")
+            if rng.random() < 0.5 and cells[target]:
+                import warnings
+                with warnings.catch_warnings():
+                    warnings.simplefilter("ignore")
+                    with np.errstate(all="ignore"):
+                        cooler.balance_cooler(tclr, store=True, ignore_diags=0, min_nnz=0, mad_max=0, max_iters=5)
+                how = "balance_cooler(store=True)"
+            else:
+                with tclr.open("r+") as g:
+                    g["bins"].create_dataset("weight", data=np.arange(n, dtype=float))
+                how = "open('r+') handle"
+            c.feature("history:column-stored-in-one-cell-later")
+            with h5py.File(path, "r") as f:
+                leaked = [nm for nm in names if nm != target and "weight" in f["cells"][nm]["bins"]]
+                c.check(not leaked and "weight" not in f["bins"], "per-cell-column-leaked:stored-later",
+                        f"a 'weight' column stored in cell {target} via {how} also appears in cells {leaked}"
+                        f"{' and in the root bin table' if 'weight' in f['bins'] else ''}")
+                c.check("weight" in f["cells"][target]["bins"], "per-cell-column-lost:stored-later",
+                        f"the column stored in cell {target} is not there")
         # history: further batches appended with mode="a" (new cells, and one earlier cell replaced)
         if idx % 3 == 0 and not c.failed:
             spare = [x for x in CELL_NAMES if x not in names]
